@@ -71,6 +71,14 @@ func (t *tr) tracked(e ast.Expr, sc *scope) (tval, bool) {
 		case stMap:
 			k, ok := t.strLit(e.Index, sc)
 			if !ok {
+				// m[key] inside a loop over the collected keys of m
+				if xi, ok := unparen(e.X).(*ast.Ident); ok {
+					if ki, ok := unparen(e.Index).(*ast.Ident); ok {
+						if b := sc.lookup(xi.Name + "[" + ki.Name + "]"); b != nil && b.kind == bTracked && b.parent == x.from {
+							return tval{e: eVar(b.coq), st: b.st, ojg: b.ojg, root: b.root, from: b, stale: b.stale}, true
+						}
+					}
+				}
 				t.refuse(e, "index of a tracked map with a key that is not a string constant")
 			}
 			if !printableASCII(k) {
@@ -87,7 +95,11 @@ func (t *tr) tracked(e ast.Expr, sc *scope) (tval, bool) {
 					}
 				}
 			}
-			t.refuse(e, "index of a tracked slice outside an `if len(x) > 0 { ... x[0] ... }`")
+			if z, ok := t.intLit(e.Index, sc); ok && z >= 0 && z < 1000 {
+				t.use(e, x)
+				return tval{e: &cexpr{op: "idx", site: t.site(e), e: x.e, n: int(z)}, st: stIface, ojg: x.ojg, root: x.root, from: x.from}, true
+			}
+			t.refuse(e, "index of a tracked slice with an index that is not a constant")
 		default:
 			t.refuse(e, "index of a tracked value that is neither a map nor a slice")
 		}
@@ -195,6 +207,66 @@ func (t *tr) trackedCall(e *ast.CallExpr, sc *scope) (tval, bool) {
 		return tval{e: &cexpr{op: "path", e: x.e, ks: b.path}, st: stSlice, ojg: x.ojg, root: x.root, from: x.from}, true
 	}
 	return tval{}, false
+}
+
+// reflect.TypeOf(x) of a tracked interface{} variable, or a name bound to it
+func (t *tr) typeOfExpr(e ast.Expr, sc *scope) (*binding, bool) {
+	e = unparen(e)
+	if id, ok := e.(*ast.Ident); ok {
+		if b := sc.lookup(id.Name); b != nil && b.kind == bTypeOf {
+			return b, true
+		}
+		return nil, false
+	}
+	c, ok := t.isPkgCall(e, sc, "reflect", "TypeOf")
+	if !ok || len(c.Args) != 1 {
+		return nil, false
+	}
+	x, ok := t.tracked(c.Args[0], sc)
+	if !ok {
+		return nil, false
+	}
+	if x.st != stIface || x.e.op != "var" || x.from == nil {
+		t.refuse(e, "reflect.TypeOf of a tracked value that is not an interface{} variable")
+	}
+	t.use(e, x)
+	name := ""
+	if id, ok := unparen(c.Args[0]).(*ast.Ident); ok {
+		name = id.Name
+	}
+	return &binding{kind: bTypeOf, symVar: x.e.x, symOjg: x.ojg, symFrom: x.from, symName: name}, true
+}
+
+// a reflect.Kind the translator can follow: reflect.<Kind>, T.Kind() for T as above (only where
+// the variable is known not to be nil: Kind() on a nil Type is a nil dereference), or a name bound to one
+func (t *tr) kindExpr(e ast.Expr, sc *scope) (*binding, bool) {
+	e = unparen(e)
+	switch e := e.(type) {
+	case *ast.Ident:
+		if b := sc.lookup(e.Name); b != nil && b.kind == bKind {
+			return b, true
+		}
+	case *ast.SelectorExpr:
+		if id, ok := e.X.(*ast.Ident); ok && id.Name == "reflect" && sc.lookup("reflect") == nil {
+			if _, ok := reflectKinds[e.Sel.Name]; ok {
+				return &binding{kind: bKind, kconst: e.Sel.Name}, true
+			}
+		}
+	case *ast.CallExpr:
+		sel, ok := e.Fun.(*ast.SelectorExpr)
+		if !ok || sel.Sel.Name != "Kind" || len(e.Args) != 0 {
+			return nil, false
+		}
+		tb, ok := t.typeOfExpr(sel.X, sc)
+		if !ok {
+			return nil, false
+		}
+		if sc.lookup("nonnil:"+tb.symVar) == nil {
+			t.refuse(e, "reflect.TypeOf(x).Kind() where x may be nil")
+		}
+		return &binding{kind: bKind, symVar: tb.symVar, symOjg: tb.symOjg, symFrom: tb.symFrom, symName: tb.symName}, true
+	}
+	return nil, false
 }
 
 // isAsSlice: func asSlice(v interface{}) []interface{} { if s, ok := v.([]interface{}); ok { return s }; return nil }
